@@ -7,6 +7,18 @@ HERE = os.path.dirname(os.path.dirname(os.path.abspath(__file__)))
 BASELINE = "cd /repo && /venv/bin/python -m pytest -ra -q -p no:cacheprovider --timeout=900 --continue-on-collection-errors"
 
 CHECKS = {
+    'C16': dict(
+        text='Lean theorems on a model of _find_shebang and of the re-attachment in minify(): a source starting with #! yields exactly its '
+             'first physical line under the LF / CRLF / lone-CR rule, any other source yields none, the output\'s first line is that line '
+             'when preservation is on and the output is the printed module alone otherwise; the two regular expressions and the '
+             '`preserve_shebang is True` test are regenerated from the source and must equal the modelled ones (decide). Tie: model vs '
+             '_find_shebang on all strings of length <= 4 over a 7-character alphabet plus random lines, for text and bytes. Decoding '
+             '(PEP 263 cookies, BOM), strict tree equality of parse(output) with parse(input), and api(bytes) == api(text) are decided on '
+             'the real code over the full encoding x newline x shebang x input-kind x preserve matrix.',
+        note='PARTIAL: source decoding is CPython\'s (assumed); the shebang bytes decoding with the declared encoding is outside the Lean '
+             'model (code units). Composition with C02 gives that the rest of the output is the printed tree.',
+        technique='Lean 4 proof (list lemmas over a regex model, generated patterns by decide) + correspondence + encoding matrix oracle',
+        ref='§6 C16'),
     'C11': dict(
         text='Lean theorems on the assigner model: reservation scopes, assigned-name sets and the preserved-name collection are used '
              'through membership only (congruence of every step and of the whole loop under set-equal states, permutation invariance of '
